@@ -72,4 +72,8 @@ claim('C14', 'model_checking', 'tlc-emit-replay', 'TLA+ spec NixProp + TLC (BFS)
 claim('C15', 'model_checking', 'tlc-emit-replay', 'TLA+ spec NixFrame + TLC (BFS) + per-transition replay with every cell read through all access paths',
       'WriteFrame (last write wins per cell across the three write paths), ResizeKeeps, RejectFrame hold on the design; every transition is executed and '
       'schema and every cell are read back through readRow/readCell/readCells/readColumn.', 'Trusted: TLC, harness/h_frame.cpp. 2-3 model columns (+ unwritten extras up to 8), <=3 rows, depth 5; types rotate by seed.', 'DESIGN.md section 5 (C15)')
+claim('C18', 'model_checking', 'tlc-emit-replay', 'TLA+ spec NixUnits (+ NixRetrieval for invariance) + TLC (exhaustive unit table, algebra laws as ASSUME) + implementation test per case',
+      'The exponent algebra (Reciprocal/Compose/Symmetric/Identity/Unambiguous) is checked by TLC over all prefixes and powers; every scalable pair '
+      '(21x21x31x7), sampled non-scalable pairs and non-SI strings are executed; the retrieval case tables are replayed with requests in a prefixed unit.',
+      'Trusted: TLC, harness/h_units.cpp, h_retr.cpp. Factor compared with 10^k to 1e-12 relative; only exactly rescalable requests are used; powers -3..3.', 'DESIGN.md section 5 (C18)')
 ENGINES[0]['serves_properties'] = sorted(CLAIMED)
